@@ -20,6 +20,7 @@ type Clause struct {
 type LoopSpec struct {
 	Invariants []Clause
 	Decreases  *Clause
+	Lemmas     []Clause // lemma instances assumed at the loop head (with the current values)
 }
 
 type Param struct {
@@ -47,6 +48,7 @@ type FuncContract struct {
 	MayPanic  bool   // runtime panics are allowed behaviour (contract must describe them)
 	Inline    bool
 	Uses      []string
+	UseCalls  []Clause // lemma instances (name(args)) assumed at function entry
 	Refines   string // functype contract this function implements, e.g. "stepFunc"
 	Implements string // interface method contract this method implements, e.g. "Err.Code"
 	Props     []string
@@ -62,6 +64,7 @@ type SpecFunc struct {
 	Body      *Clause // nil: uninterpreted
 	Decreases *Clause // non-nil: recursive (axiomatised)
 	Recursive bool
+	Opaque    bool // declared + definitional axiom even though not recursive (usable in triggers)
 	File      string
 	Line      int
 }
@@ -257,6 +260,10 @@ func (c *Contracts) parseLines(lines []srcLine, scope string) error {
 			if i := indexTopLevelEq(rest); i >= 0 {
 				head, body = strings.TrimSpace(rest[:i]), strings.TrimSpace(rest[i+1:])
 			}
+			if strings.HasSuffix(head, " opaque") {
+				sf.Opaque = true
+				head = strings.TrimSpace(strings.TrimSuffix(head, " opaque"))
+			}
 			// optional "decreases e" at end of head
 			if i := strings.Index(head, " decreases "); i >= 0 {
 				d, err := mk(s, strings.TrimSpace(head[i+len(" decreases "):]))
@@ -427,13 +434,30 @@ func (c *Contracts) parseLines(lines []srcLine, scope string) error {
 			switch kind {
 			case "invariant":
 				ls.Invariants = append(ls.Invariants, e)
+			case "lemma":
+				ls.Lemmas = append(ls.Lemmas, e)
 			case "decreases":
 				ls.Decreases = &e
 			default:
 				return fmt.Errorf("%s:%d: loop %d: expected invariant/decreases", s.file, s.line, n)
 			}
 		case "uses":
-			names := strings.Split(strings.TrimPrefix(strings.TrimSpace(s.rest), "lemma "), ",")
+			rest := strings.TrimPrefix(strings.TrimSpace(s.rest), "lemma ")
+			if strings.Contains(rest, "(") {
+				// call form: ground lemma instances
+				if curF == nil {
+					return fmt.Errorf("%s:%d: lemma instance outside func", s.file, s.line)
+				}
+				for _, part := range splitTopLevelComma(rest) {
+					e, err := mk(s, strings.TrimSpace(part))
+					if err != nil {
+						return err
+					}
+					curF.UseCalls = append(curF.UseCalls, e)
+				}
+				continue
+			}
+			names := strings.Split(rest, ",")
 			for i := range names {
 				names[i] = strings.TrimSpace(names[i])
 			}
